@@ -1,0 +1,13 @@
+//go:build verif
+
+package document
+
+import (
+	bo "github.com/benoitkugler/webrender/html/boxes"
+)
+
+// Read-only accessor used by the /verif correspondence check of property C16
+// (paint order). Compiled only with `-tags verif`.
+
+// VerifPageBox returns the laid-out page box that Paint draws.
+func (d Page) VerifPageBox() *bo.PageBox { return d.pageBox }
